@@ -438,3 +438,40 @@ package loader
 //@   props C18
 //@   nopanic
 //@   ensures fresh(result) && result.enumConstraint == enumConstraint && result.rules == rules && result.inProgress && boundis(result.stateFunc, enumValueLoader, "begin") && result.lastIdx == 0
+
+// ---- C03/C08: the value of `or` is an array of AT LEAST TWO alternatives ----
+//@ func (*orValueLoader).nodeTypesListConstraint()
+//@   props C03 C08
+//@   requires a != nil && isNode(a.node) && consReady(a.node) && rulesTyped(a.node)
+//@   maypanic
+//@   ensures panics <==> !hasRule(a.node, constraint.TypesListConstraintType)
+//@   ensures normal ==> result != nil && result == unbox(consOf(a.node).data[constraint.TypesListConstraintType], *constraint.TypesList)
+//@   ensures panics ==> typeis(pv, errors.ErrorCode) && unbox(pv, errors.ErrorCode) == errors.ErrLoader
+//@ func (*orValueLoader).begin(lex)
+//@   props C03 C08
+//@   requires a != nil
+//@   maypanic
+//@   modifies a.stateFunc
+//@   ensures panics <==> lex.lexEventType != lexeme.ArrayBegin
+//@   ensures normal ==> boundis(a.stateFunc, orValueLoader, "itemBeginOrArrayEnd")
+//@   ensures panics ==> typeis(pv, errors.ErrorCode) && unbox(pv, errors.ErrorCode) == errors.ErrArrayWasExpectedInOrRule
+//@ func (*orValueLoader).itemBeginOrArrayEnd(lex)
+//@   props C03 C08
+//@   requires a != nil && isNode(a.node) && consReady(a.node) && rulesTyped(a.node)
+//@   maypanic
+//@   modifies a.stateFunc, a.inProgress
+//@   ensures lex.lexEventType == lexeme.ArrayItemBegin ==> normal && boundis(a.stateFunc, orValueLoader, "itemInner") && a.inProgress == old(a.inProgress)
+//@   ensures lex.lexEventType != lexeme.ArrayItemBegin && lex.lexEventType != lexeme.ArrayEnd ==> panics
+//@   ensures lex.lexEventType == lexeme.ArrayEnd ==> (panics <==> !(hasRule(a.node, constraint.TypesListConstraintType) && len(unbox(consOf(a.node).data[constraint.TypesListConstraintType], *constraint.TypesList).innerTypeNames) >= 2))
+//@   ensures lex.lexEventType == lexeme.ArrayEnd && normal ==> !a.inProgress && boundis(a.stateFunc, orValueLoader, "endOfLoading")
+//@   ensures lex.lexEventType == lexeme.ArrayEnd && hasRule(a.node, constraint.TypesListConstraintType) && len(unbox(consOf(a.node).data[constraint.TypesListConstraintType], *constraint.TypesList).innerTypeNames) == 0
+//@           ==> typeis(pv, errors.ErrorCode) && unbox(pv, errors.ErrorCode) == errors.ErrEmptyArrayInOrRule
+//@   ensures lex.lexEventType == lexeme.ArrayEnd && hasRule(a.node, constraint.TypesListConstraintType) && len(unbox(consOf(a.node).data[constraint.TypesListConstraintType], *constraint.TypesList).innerTypeNames) == 1
+//@           ==> typeis(pv, errors.ErrorCode) && unbox(pv, errors.ErrorCode) == errors.ErrOneElementInArrayInOrRule
+//@ func (*orValueLoader).itemEnd(lex)
+//@   props C03 C08
+//@   requires a != nil
+//@   maypanic
+//@   modifies a.stateFunc
+//@   ensures panics <==> lex.lexEventType != lexeme.ArrayItemEnd
+//@   ensures normal ==> boundis(a.stateFunc, orValueLoader, "itemBeginOrArrayEnd")
